@@ -6,6 +6,7 @@ D=/verif/seeded/$NAME
 mkdir -p "$D"
 cp "$WT"/demo/demo.c "$WT"/demo/build.sh "$WT"/demo/patch.diff "$WT"/demo/NOTES.md "$D/" 2>/dev/null
 # extra demo files (headers, helper sources)
+for d in "$WT"/demo/*/; do [ -d "$d" ] && cp -r "$d" "$D/"; done
 for f in "$WT"/demo/*; do b=$(basename "$f"); case "$b" in demo|demo.c|build.sh|patch.diff|NOTES.md|*.o) ;; *) [ -f "$f" ] && cp "$f" "$D/" && echo "$b" >> "$D/extra_files.txt";; esac; done
 python3 - "$D" "$PROP" "$NEED" "$NAME" <<'PY'
 import json,sys
